@@ -288,8 +288,90 @@ def nii_digest(nii):
 
 # ------------------------------------------------------------------ runs
 
+def header_request(st, nii, order):
+    """what `to_nifti` derived the header fields from, read off the stack right after the conversion
+    (file order as the conversion left it), and what the header says"""
+    import dcmstack
+    import nibabel as nb
+    from nibabel.spatialimages import HeaderDataError
+    files = [fi[0] for fi in st._files_info]
+
+    def micro(x):
+        return None if x is None else int(round(float(x) * 1e6))
+    trs = [micro(w.get_meta('RepetitionTime')) for w in files]
+    pes = [None if w.get_meta('InPlanePhaseEncodingDirection') is None else
+           {'ROW': 0, 'COL': 1}.get(w.get_meta('InPlanePhaseEncodingDirection'), 2) for w in files]
+    perm = [0, 1, 2]
+    if order:
+        data, aff = st.get_data(), st.get_affine()
+        perm = [int(x) for x in list(zip(*dcmstack.reorder_voxels(data, aff, order)[3]))[0]]
+    acq = [None if w.get_meta('AcquisitionTime') is None else micro(dcmstack.dcm_time_to_sec(w.get_meta('AcquisitionTime')))
+           for w in files]
+    shape = nii.shape
+    nvols = 1
+    for d in shape[3:]:
+        nvols *= d
+    fpv = len(files) // nvols
+    hdr = nii.header
+    n = shape[hdr.get_dim_info()[2]] if hdr.get_dim_info()[2] is not None else shape[perm[2]]
+    req = {'op': 'header_info', 'trs': trs, 'pes': pes, 'perm': perm, 'acq': acq, 'fpv': fpv, 'nvols': nvols, 'n': int(n)}
+    try:
+        st_impl = [float(x) for x in hdr.get_slice_times()]
+    except HeaderDataError:
+        st_impl = None
+    got = {'pixdim4': float(hdr['pixdim'][4]), 'dim_info': [None if x is None else int(x) for x in hdr.get_dim_info()],
+           'times': st_impl, 'shape': [int(x) for x in shape]}
+    return req, got
+
+
+def header_compare(a, got):
+    """model answer vs header; returns None or a description of the difference"""
+    import nibabel as nb
+    from nibabel.spatialimages import HeaderDataError
+    if a['tr'] is None:
+        if abs(got['pixdim4'] - 1.0) > 1e-6 and abs(got['pixdim4']) > 1e-6:
+            return 'pixdim[4] = %s although the model records no repetition time' % got['pixdim4']
+    elif abs(got['pixdim4'] - a['tr'] / 1e6) > 1e-3 * max(1.0, abs(a['tr'] / 1e6)) * 1e-2:
+        return 'pixdim[4] = %s, model %s' % (got['pixdim4'], a['tr'] / 1e6)
+    if [a['freq'], a['phase'], a['slice']] != got['dim_info']:
+        return 'dim_info %s, model %s' % (got['dim_info'], [a['freq'], a['phase'], a['slice']])
+    exp = None
+    if a['times'] is not None:
+        h = nb.Nifti1Header()
+        h.set_data_shape(got['shape'])
+        h.set_dim_info(slice=a['slice'])
+        try:
+            h.set_slice_times([t / 1e6 for t in a['times']])
+            exp = [float(x) for x in h.get_slice_times()]
+        except HeaderDataError:
+            exp = None              # nibabel cannot store this pattern: to_nifti swallows the error
+    if (exp is None) != (got['times'] is None):
+        return 'slice times %s, model (through nibabel) %s' % (got['times'], exp)
+    if exp is not None and (len(exp) != len(got['times']) or any(abs(x - y) > 1e-4 for x, y in zip(exp, got['times']))):
+        return 'slice times %s, model %s' % (got['times'], exp)
+    return None
+
+
 def conv_round(rep, pid, r, tier):
     """conversions of complete grids under several voxel orders; oracles by property"""
+    hreqs, hmeta = [], []
+    try:
+        _conv_round(rep, pid, r, tier, hreqs, hmeta)
+    finally:
+        if hreqs:
+            co = rep.corr.setdefault('header_info', {'cases': 0, 'agree': 0, 'disagree': 0, 'skipped': 0})
+            for a, (series, order, got) in zip(core.Driver().ask(hreqs), hmeta):
+                co['cases'] += 1
+                diff = header_compare(a, got)
+                if diff is None:
+                    co['agree'] += 1
+                else:
+                    co['disagree'] += 1
+                    rep.disagreements.append(('header_info', 'stack:header', {'series': {k: v for k, v in series.items() if k != 'files'}, 'order': order},
+                                              diff + ' (model %s)' % json.dumps(a)[:200]))
+
+
+def _conv_round(rep, pid, r, tier, hreqs, hmeta):
     n = {'quick': 40, 'thorough': 800}[tier]
     norders = {'quick': 4, 'thorough': 49}[tier]
     for ci in range(n):
@@ -331,6 +413,12 @@ def conv_round(rep, pid, r, tier):
                 fails = oracle_c14(series, nii, truth)
             elif pid == 'C20':
                 fails = oracle_c20(series, nii, order)
+                try:
+                    q, got = header_request(st, nii, order)
+                    hreqs.append(q)
+                    hmeta.append((series, order, got))
+                except Exception as e:
+                    rep.count('header_corr/request_failed:' + type(e).__name__)
             else:
                 fails = []
             for f in fails[:1]:
@@ -1111,7 +1199,8 @@ THEOREMS = {
             'C12.history_independent', 'C12.reverse_involutive', 'C12.add_order_and_history_independent'],
     'C20': ['C20.tm_colons_ignored', 'C20.tm_same_digits', 'C20.tm_instances', 'C20.tm_malformed',
             'C20.tm_two_digits', 'C20.tm_four_digits', 'C20.tm_six_plus', 'C20.time_fns_identical', 'C20.dim_info_axes',
-            'C20.slice_times_follow_data', 'C20.reversal_index'],
+            'C20.slice_times_follow_data', 'C20.reversal_index', 'C20.slice_times_every_volume',
+            'C20.slice_times_need_all', 'C20.slice_times_inconsistent_none', 'C20.tr_recorded_iff', 'C20.dim_info_spec'],
 }
 
 TRUSTED = [
